@@ -72,7 +72,7 @@ FValStored  == {FStored(a) : a \in FValSet} \cup {"v:0"}
 
 -----------------------------------------------------------------------------
 (* Geometry tokens: spatial kinds and string kinds.                         *)
-IsString(g) == g \in {"g:S1", "g:S2", "g:SJ"}      \* SET ... STRING value
+IsString(g) == g \in {"g:S1", "g:S2", "g:SJ", "g:DOC"}      \* SET ... STRING value / JSET documents
 IsSpatial(g) == ~IsString(g)
 
 -----------------------------------------------------------------------------
@@ -89,7 +89,9 @@ PatMatch(p, seq, x) ==
 
 -----------------------------------------------------------------------------
 (* State.                                                                   *)
-NoObj   == [g |-> "none", f |-> [n \in FNames |-> "v:0"], ex |-> FALSE]
+NoObj   == [g |-> "none", f |-> [n \in FNames |-> "v:0"], ex |-> FALSE, d |-> <<>>]
+\* "g:DOC" is a string object holding a JSON document; d is the document as the sequence of its
+\* <<member, value>> pairs in insertion order (sjson keeps positions, appends new members)
 NoHook  == [key |-> "none", chan |-> FALSE]
 ZeroF   == [n \in FNames |-> "v:0"]
 
@@ -137,14 +139,16 @@ FlatFields(o, names) == IF names = <<>> THEN <<>>
    ELSE <<RStr(Head(names)), RStr(o.f[Head(names)])>> \o FlatFields(o, Tail(names))
 FieldsFn(o) == [n \in {x \in FNames : ~FZero(o.f[x])} |-> o.f[n]]
 
+GeoR(o) == IF o.g = "g:DOC" THEN [t |-> "doc", d |-> o.d] ELSE RStr(o.g)
+GeoJ(o) == IF o.g = "g:DOC" THEN [doc |-> o.d] ELSE o.g
 ObjResp(o, wf) ==
-  IF wf THEN (IF NonZeroNames(o) = <<>> THEN RArr(<<RStr(o.g)>>)
-              ELSE RArr(<<RStr(o.g), RArr(FlatFields(o, NonZeroNames(o)))>>))
-        ELSE RStr(o.g)
+  IF wf THEN (IF NonZeroNames(o) = <<>> THEN RArr(<<GeoR(o)>>)
+              ELSE RArr(<<GeoR(o), RArr(FlatFields(o, NonZeroNames(o)))>>))
+        ELSE GeoR(o)
 ObjJson(o, wf) ==
   IF wf /\ NonZeroNames(o) # <<>>
-  THEN [ok |-> TRUE, object |-> o.g, fields |-> FieldsFn(o)]
-  ELSE [ok |-> TRUE, object |-> o.g]
+  THEN [ok |-> TRUE, object |-> GeoJ(o), fields |-> FieldsFn(o)]
+  ELSE [ok |-> TRUE, object |-> GeoJ(o)]
 
 Result(st, rr, rj, upd) == [st |-> st, rr |-> rr, rj |-> rj, upd |-> upd]
 Fail(st, e)             == Result(st, RErr(e), JErr(e), FALSE)
@@ -160,7 +164,7 @@ ApplySet(st, c) ==
   LET old == st.cols[c.k][c.id]
       has == Present(st, c.k, c.id)
       newf == MergeF(IF has THEN old.f ELSE ZeroF, c.fu)     \* merged into the OLD fields
-      obj == [g |-> c.g, f |-> newf, ex |-> c.ex]            \* deadline replaced, not kept
+      obj == [g |-> c.g, f |-> newf, ex |-> c.ex, d |-> <<>>]  \* deadline replaced, not kept
   IN IF (c.cond = "xx" /\ ~has) \/ (c.cond = "nx" /\ has)
      THEN Result(st, RNil, JErr(IF c.cond = "nx" THEN "id already exists" ELSE "id not found"), FALSE)
      ELSE Result(SetObj(st, c.k, c.id, obj), ROk, JOk, TRUE)
@@ -211,6 +215,12 @@ ApplyFlushdb(st, c) == Result(EmptyState, ROk, JOk, TRUE)
 ApplyExpire(st, c) ==
   IF Present(st, c.k, c.id)
   THEN Result([st EXCEPT !.cols[c.k][c.id].ex = TRUE], RInt(1), JOk, TRUE)
+  ELSE Result(st, RInt(0), JErr(IF ColExists(st, c.k) THEN "id not found" ELSE "key not found"), FALSE)
+
+\* EXPIRE key id 0 followed by the background sweeper: the object disappears and the sweeper logs
+\* a DEL (expiry is applied as a logged delete); the reply is that of EXPIRE
+ApplyExpireNow(st, c) ==
+  IF Present(st, c.k, c.id) THEN Result(DelObj(st, c.k, c.id), RInt(1), JOk, TRUE)
   ELSE Result(st, RInt(0), JErr(IF ColExists(st, c.k) THEN "id not found" ELSE "key not found"), FALSE)
 
 ApplyPersist(st, c) ==
@@ -276,6 +286,37 @@ ApplyScan(st, c) ==
      ELSE Result(st, RArr(<<IF hit THEN RStr("pos") ELSE RInt(0), RArr([j \in 1..Len(items) |-> RStr(items[j])])>>),
                  [ok |-> TRUE, ids |-> items, count |-> Len(items), cursor |-> IF hit THEN "pos" ELSE 0], FALSE)
 
+
+\* JSON documents ----------------------------------------------------------
+\* JSET key id member value / JDEL key id member / JGET key id [member]; modelled for targets that are
+\* missing or hold a document (CanJson); other targets are outside the model and never generated.
+CanJson(st, c) == ~Present(st, c.k, c.id) \/ st.cols[c.k][c.id].g = "g:DOC"
+DocHas(d, m)   == \E j \in 1..Len(d) : d[j][1] = m
+DocIdx(d, m)   == CHOOSE j \in 1..Len(d) : d[j][1] = m
+DocSet(d, m, v) == IF DocHas(d, m) THEN [d EXCEPT ![DocIdx(d, m)] = <<m, v>>] ELSE Append(d, <<m, v>>)
+DocDel(d, m)   == SelectSeq(d, LAMBDA p : p[1] # m)
+ApplyJset(st, c) ==      \* always logged; keeps the fields, drops the deadline (as coded)
+  LET old == st.cols[c.k][c.id]
+      has == Present(st, c.k, c.id)
+      obj == [g |-> "g:DOC", f |-> IF has THEN old.f ELSE ZeroF, ex |-> FALSE,
+              d |-> DocSet(IF has THEN old.d ELSE <<>>, c.m, c.v)]
+  IN Result(SetObj(st, c.k, c.id, obj), ROk, JOk, TRUE)
+ApplyJdel(st, c) ==
+  IF ~ColExists(st, c.k) THEN Result(st, RInt(0), JErr("key not found"), FALSE)
+  ELSE IF ~Present(st, c.k, c.id) \/ ~DocHas(st.cols[c.k][c.id].d, c.m)
+       THEN Result(st, RInt(0), JErr("path not found"), FALSE)
+       ELSE LET old == st.cols[c.k][c.id]
+            IN Result(SetObj(st, c.k, c.id, [old EXCEPT !.d = DocDel(old.d, c.m), !.ex = FALSE]),
+                      RInt(1), JOk, TRUE)
+ApplyJget(st, c) ==
+  IF ~Present(st, c.k, c.id)
+  THEN Result(st, RNil, JErr(IF ColExists(st, c.k) THEN "id not found" ELSE "key not found"), FALSE)
+  ELSE LET d == st.cols[c.k][c.id].d IN
+       IF c.m = "whole" THEN Result(st, [t |-> "doc", d |-> d], [ok |-> TRUE, value |-> [docstr |-> d]], FALSE)
+       ELSE IF DocHas(d, c.m)
+            THEN Result(st, RStr(d[DocIdx(d, c.m)][2]), [ok |-> TRUE, value |-> [jstr |-> d[DocIdx(d, c.m)][2]]], FALSE)
+            ELSE Result(st, RNil, JOk, FALSE)
+
 \* hooks and channels ------------------------------------------------------
 ApplySethook(st, c) ==          \* SETHOOK name url ... / SETCHAN name ...
   LET cur == st.hooks[c.h]
@@ -311,6 +352,7 @@ Apply(st, c) ==
     [] c.op = "flushdb"  -> ApplyFlushdb(st, c)
     [] c.op = "expire"   -> ApplyExpire(st, c)
     [] c.op = "persist"  -> ApplyPersist(st, c)
+    [] c.op = "expirenow" -> ApplyExpireNow(st, c)
     [] c.op = "ttl"      -> ApplyTtl(st, c)
     [] c.op = "get"      -> ApplyGet(st, c)
     [] c.op = "exists"   -> ApplyExists(st, c)
@@ -319,12 +361,17 @@ Apply(st, c) ==
     [] c.op = "type"     -> ApplyType(st, c)
     [] c.op = "keys"     -> ApplyKeys(st, c)
     [] c.op = "scan"     -> ApplyScan(st, c)
+    [] c.op = "jset"     -> ApplyJset(st, c)
+    [] c.op = "jdel"     -> ApplyJdel(st, c)
+    [] c.op = "jget"     -> ApplyJget(st, c)
     [] c.op = "sethook"  -> ApplySethook(st, c)
     [] c.op = "delhook"  -> ApplyDelhook(st, c)
     [] c.op = "pdelhook" -> ApplyPdelhook(st, c)
     [] c.op = "hooks"    -> ApplyHooks(st, c)
 
-IsRead(c) == c.op \in {"ttl", "get", "exists", "fexists", "fget", "type", "keys", "scan", "hooks"}
+IsRead(c) == c.op \in {"ttl", "get", "exists", "fexists", "fget", "type", "keys", "scan", "hooks", "jget"}
+\* commands the generator may issue in state st
+Generable(st, c) == c.op \in {"jset", "jdel", "jget"} => CanJson(st, c)
 
 -----------------------------------------------------------------------------
 (* Properties of the model itself (C01): checked by TLC on the full graph.  *)
